@@ -486,6 +486,11 @@ func runC09(ctx *Ctx) error {
 		schemas["Holder"] = J{"type": "object", "properties": J{"one": J{"$ref": c09Ref("U0")}, "many": J{"type": "array", "items": J{"$ref": c09Ref("U1")}},
 			"byName": J{"type": "object", "additionalProperties": J{"$ref": c09Ref("U2")}},
 			"inline": J{"oneOf": []interface{}{J{"$ref": c09Ref("Cat")}, J{"$ref": c09Ref("Dog")}}}}}
+		// an inline union with an explicit mapping as a property, and a composition that inherits that property: the union
+		// schema is visited once for each of the two types it is generated under
+		schemas["House"] = J{"type": "object", "properties": J{"pet": J{"oneOf": []interface{}{J{"$ref": c09Ref("Cat")}, J{"$ref": c09Ref("Dog")}},
+			"discriminator": J{"propertyName": c09DP, "mapping": J{"cat": c09Ref("Cat"), "kitten": c09Ref("Cat"), "dog": c09Ref("Dog")}}}}}
+		schemas["Shelter"] = J{"allOf": []interface{}{J{"$ref": c09Ref("House")}, J{"type": "object", "properties": J{"capacity": J{"type": "integer"}}}}}
 		doc := J{"openapi": "3.0.3", "info": J{"title": "t", "version": "1"}, "paths": J{}, "components": J{"schemas": schemas}}
 		var cfg codegen.Configuration
 		cfg.Generate.Models = true
@@ -722,6 +727,45 @@ func runC09(ctx *Ctx) error {
 					}
 				}
 			}
+			// a member carrying an integer that no float64 holds (2^53+1, the largest int64): a union with properties of its own
+			// decodes and encodes it digit for digit, and so does the accessor of the member
+			if len(u.Prims) == 0 {
+				intField := map[string]string{"guard-dog": "level", "bird_2": "wings", "BigCat": "size", "zoo.Owl": "hoots"}
+				for _, m := range u.Refs {
+					fld, ok := intField[m]
+					if !ok {
+						continue
+					}
+					for _, big := range []string{"9007199254740993", "9223372036854775807", "-9007199254740993"} {
+						key := "x"
+						for k, mm := range table {
+							if mm == m {
+								key = k
+							}
+						}
+						inst := fmt.Sprintf(`{%s:%s,%s:%s`, jsonOf(c09DP), jsonOf(key), jsonOf(fld), big)
+						if u.Fixed == "meta" {
+							inst += `,"meta":"m"`
+						}
+						if u.Fixed == "name" {
+							inst += `,"name":null`
+						}
+						if u.Addl {
+							inst += `,"extra_key":"e"`
+						}
+						inst += "}"
+						resp, err := d.p.Call(J{"do": "json", "type": u.Name, "data": inst})
+						if err != nil {
+							return err
+						}
+						ctx.Res.Count("lossless:big-integer")
+						out, _ := resp["out"].(string)
+						if !jsonEqualExact(out, inst) {
+							ctx.Res.Violate("lossless-big-integer:"+sig, fmt.Sprintf("%s decoded and encoded again is %s", inst, out), replay)
+						}
+					}
+				}
+			}
 			// a union with fixed and additional properties: after decoding, the fixed member is not among the additional
 			// ones and the extra member is
 			if u.Addl && u.Fixed != "" {
@@ -891,6 +935,33 @@ func runC09(ctx *Ctx) error {
 		out, _ := resp["out"].(string)
 		if !jsonEqual(out, jsonOf(holder)) {
 			ctx.Res.Violate("nested-lossless", fmt.Sprintf("unions nested in a property, an array and a map: %s comes back as %v", jsonOf(holder), Canon(resp)), J{"doc": d.p.Doc})
+		}
+		// the inline union of House.pet and the one Shelter inherits: every mapped value dispatches to its member, under both
+		for _, ty := range []string{"House_Pet", "Shelter_Pet"} {
+			for val, member := range map[string]string{"cat": "Cat", "kitten": "Cat", "dog": "Dog"} {
+				resp, err := d.p.Call(J{"do": "methods", "type": ty, "data": jsonOf(J{c09DP: val}), "steps": []J{{"m": "ValueByDiscriminator", "args": []json.RawMessage{}}}})
+				if err != nil {
+					return err
+				}
+				if e, _ := resp["err"].(string); e != "" {
+					ctx.Res.Count("inherited-union:no-such-type:" + ty)
+					break
+				}
+				ctx.Res.Count("inherited-union")
+				ctx.Res.Eval(J{"inherited-union": ty, "value": val}, true)
+				results, _ := resp["results"].([]interface{})
+				dyn, e := "", ""
+				if len(results) == 1 {
+					rm, _ := results[0].(map[string]interface{})
+					e, _ = rm["error"].(string)
+					if vals, _ := rm["values"].([]interface{}); len(vals) > 0 {
+						dyn, _ = vals[0].(map[string]interface{})["dyn"].(string)
+					}
+				}
+				if dyn != "main."+member {
+					ctx.Res.Violate("inherited-union:dispatch:"+ty, fmt.Sprintf("%s: discriminator value %q is mapped to %s; ValueByDiscriminator returns %q %s", ty, val, member, dyn, e), J{"doc": d.p.Doc})
+				}
+			}
 		}
 	}
 	return nil
